@@ -35,6 +35,32 @@ class RecWorld:
         self.calls.append((src, dest, attrs, kw))
 
 
+def check_many_to_one(ns, C, viol, res=None, only=None):
+    from mosaik import util
+    import itertools
+    src = [Ent(f"s{i}") for i in range(ns)]
+    d = Ent("d")
+    # src_set is typed Iterable[Entity]; the documentation uses itertools.chain(...) -- one-shot iterables count
+    shapes = {"list": lambda: list(src), "tuple": lambda: tuple(src), "iter": lambda: iter(src),
+              "chain": lambda: itertools.chain(src[:ns // 2], src[ns // 2:]),
+              "generator": lambda: (e for e in src), "filter": lambda: filter(None, src),
+              "dict_keys": lambda: dict.fromkeys(src).keys()}
+    for shape, mk in shapes.items():
+        for asy in (False, True):
+            if only and (shape, asy) != only:
+                continue
+            rw = RecWorld()
+            util.connect_many_to_one(rw, mk(), d, "a", ("b", "c"), async_requests=asy)
+            C["calls_many_to_one"] += 1
+            C["many_to_one_src_" + shape] += 1
+            if res is not None:
+                res["evaluations"] += 1
+            if [c[0] for c in rw.calls] != src or any(c[1] is not d for c in rw.calls) or \
+                    any(c[2] != ("a", ("b", "c")) for c in rw.calls) or \
+                    any(c[3].get("async_requests", False) != asy for c in rw.calls):
+                viol("many_to_one_wrong", case={"n_src": ns, "src_set": shape, "async_requests": asy})
+
+
 def check_case(ns, nd, evenly, maxc, rseed, C, viol):
     from mosaik import util
     src = [Ent(f"s{i}") for i in range(ns)]
@@ -46,7 +72,10 @@ def check_case(ns, nd, evenly, maxc, rseed, C, viol):
     if maxc is not None:
         kw["max_connects"] = maxc
     try:
-        ret = util.connect_randomly(w, list(src), list(dest), "a", ("b", "c"), **kw)
+        # sequences of either kind (the destination set is copied before it is shuffled)
+        src_arg = tuple(src) if rseed & 4 else list(src)
+        dest_arg = tuple(dest) if rseed & 8 else list(dest)
+        ret = util.connect_randomly(w, src_arg, dest_arg, "a", ("b", "c"), **kw)
     except Exception as e:  # noqa: BLE001
         viol("exception_on_admissible_input", case=case, error=f"{type(e).__name__}: {e}",
              connects_before_error=len(w.calls))
@@ -112,15 +141,7 @@ def run_slice(job: dict) -> dict:
     for ns in range(0, job["max_src"] + 1):
         if ns % W != w:
             continue
-        src = [Ent(f"s{i}") for i in range(ns)]
-        d = Ent("d")
-        rw = RecWorld()
-        util.connect_many_to_one(rw, src, d, "a", ("b", "c"))
-        C["calls_many_to_one"] += 1
-        res["evaluations"] += 1
-        if [c[0] for c in rw.calls] != src or any(c[1] is not d for c in rw.calls) or \
-                any(c[2] != ("a", ("b", "c")) for c in rw.calls):
-            viol("many_to_one_wrong", case={"n_src": ns})
+        check_many_to_one(ns, C, viol, res)
     res["hashes"] = list(res["hashes"])
     res["counters"] = dict(C)
     return res
@@ -135,6 +156,8 @@ def replay(rep: dict) -> List[dict]:
         out.append(kw)
     if c and "n_dest" in c:
         check_case(c["n_src"], c["n_dest"], c["evenly"], c["max_connects"], c["random_seed"], Counter(), viol)
+    elif c and "src_set" in c:
+        check_many_to_one(c["n_src"], Counter(), viol, None, (c["src_set"], c["async_requests"]))
     return out
 
 
@@ -152,7 +175,8 @@ def evidence(m, tier, seed):
     return {"level": "exploration", "coverage": {
         "rule": "all (|src| <= max_src, 1 <= |dest| <= max_dest, evenly, max_connects in {inf,1,2,3,4}; evenly=True also with a finite max_connects, which is documented as ignored) with "
                 "|src| <= |dest|*max_connects x random seeds, on a recording world; distinct_nontrivial = distinct "
-                "(sizes, mode, cap, seed) with at least two sources and two destinations",
+                "(sizes, mode, cap, seed) with at least two sources and two destinations; connect_many_to_one with the "
+                "source set as list / tuple / iterator / itertools.chain / generator / filter object / dict keys, async_requests on and off",
         "exhaustive": False,
         "obligations": m["counters"].get("connect_calls_recorded", 0),
     }, "assumptions": ["the random module's global state is seeded per case"]}
